@@ -11,12 +11,12 @@ def write_cfg(name, maxlen, profile, envset, extra="NoExtra"):
     return name
 
 
-def gen_and_replay(acc, tag, maxlen, profile, envset, prop, workers=14):
-    cfg = write_cfg(f"MC_ClvmGen_{tag}.cfg", maxlen, profile, envset)
-    r = core.run_tlc("MC_ClvmGen", cfg, f"{acc.prop}_{tag}", workers=workers, timeout=3000)
+def gen_and_replay(acc, tag, maxlen, profile, envset, prop, workers=14, module="MC_ClvmGen", extra="NoExtra"):
+    cfg = write_cfg(f"{module}_{tag}.cfg", maxlen, profile, envset, extra=extra)
+    r = core.run_tlc(module, cfg, f"{acc.prop}_{tag}", workers=workers, timeout=3000)
     if not r.ok:
-        raise core.ToolError(f"TLC reported an error on MC_ClvmGen/{tag}: {r.invariant_violated}\n{r.output[-2500:]}")
-    acc.add_tlc(f"MC_ClvmGen[{tag}]", r, require_actions=["Add", "Emit"])
+        raise core.ToolError(f"TLC reported an error on {module}/{tag}: {r.invariant_violated}\n{r.output[-2500:]}")
+    acc.add_tlc(f"{module}[{tag}]", r, require_actions=["Add", "Emit"])
     out = os.path.join(core.BUILD, f"{acc.prop}_{tag}.report.json")
     core.run_vh(["replay-clvm", "--in", r.out_path, "--out", out, "--prop", prop])
     rep = core.load_json(out)
